@@ -11,17 +11,26 @@
     NaiveDateTime / DateTime<FixedOffset> ([m : mode] = MTrunc | MUp | MRound, [spec_of m] the
     corresponding multiple), [round_subsecs / trunc_subsecs] the SubsecRound methods.
 
-    Links to the neighbouring properties are explicit premises, never axioms:
-    [ndt_links stamp good] says that on well-formed non-leap values [good], [timestamp_nanos_opt]
-    reads the wall-clock stamp ([None] exactly outside i64; C02) and [checked_add_signed] /
-    [checked_sub_signed] move it by exactly the duration inside (-2^64, 2^64) ns (C03);
-    [dz_links wall goodz] says the same for DateTime<FixedOffset> with the wall clock read through
-    [overflowing_naive_local] (C04).  Theorems that depend on them are named *_modulo_add_exact.
+    Links to the neighbouring properties.  The instance theorems were first proved from explicit
+    premises (never axioms): [ndt_links stamp good] says that on well-formed non-leap values [good],
+    [timestamp_nanos_opt] reads the wall-clock stamp ([None] exactly outside i64; C02) and
+    [checked_add_signed] / [checked_sub_signed] move it by exactly the duration inside
+    (-2^64, 2^64) ns (C03); [dz_links wall goodz] says the same for DateTime<FixedOffset> with the
+    wall clock read through [overflowing_naive_local] (C04).  Those forms are kept under the names
+    *_modulo_add_exact.  Proofs/C17Links.v discharges the premises with the owners' theorems
+    (C02_timestamp_nanos_opt_spec; C03_ndt_add_exact / _sub_exact / C03_zone_add_exact / _sub_exact;
+    the wall-clock reading of C04_overflowing_naive_local re-derived in C03's nanosecond vocabulary,
+    with the timestamps of the two headroom date words computed), see [C17_links_discharged]; the
+    theorems C17_naive_* / C17_zoned_* WITHOUT the suffix are the unconditional statements, over
+      [nvalid a]  (Proofs/C03.v) date word produced by the checked constructor, non-leap time of day,
+      [inst a]    its instant: nanoseconds since 1970-01-01T00:00:00 read through Spec/Gregorian.v,
+      [zgood z]   nvalid UTC part and offset strictly between -86400 and 86400 seconds,
+      [zwall z]   = inst (UTC part) + offset * 10^9, the wall-clock stamp.
     The arithmetic core — the deltas derived from Rust's truncating [stamp % span] in the separate
     negative branches reach the specified multiple — is proved outright. *)
 From Coq Require Import ZArith List Bool.
-From V Require Import Base.Int Base.IO Model.TimeDelta Model.DateTime Model.Round Proofs.C17.
-From V Require Model.Time Judge.C17 Proofs.C06.
+From V Require Import Base.Int Base.IO Spec.Gregorian Model.TimeDelta Model.DateTime Model.Round Proofs.C17.
+From V Require Model.Time Judge.C17 Proofs.C06 Proofs.C03 Proofs.C17Links.
 Open Scope Z_scope.
 
 (** ** the specification is what the text says *)
@@ -253,6 +262,114 @@ Theorem C17_zoned_trunc_subsecs_modulo_add_exact : forall wall goodz LO HI, dz_s
   exists r, trunc_subsecs dz_ops z digits = Val r /\ subsec_post wall goodz m_trunc z digits r.
 Proof. exact dz_trunc_subsecs. Qed.
 Print Assumptions C17_zoned_trunc_subsecs_modulo_add_exact.
+
+(** ** the links hold: the premises of the *_modulo_add_exact theorems, instantiated with the
+    theorems of C02 / C03 / C04 (Proofs/C17Links.v).  For sub-second rounding the range on which
+    + / - are exact is the whole range of representable instants [NS_MIN, NS_MAX] (for a zone-aware
+    value: of its UTC instant, i.e. shifted by the offset on the wall-clock axis). *)
+Notation nvalid := V.Proofs.C03.nvalid.
+Notation inst := V.Proofs.C03.inst.
+Notation zgood := V.Proofs.C17Links.zgood.
+Notation zgood_at := V.Proofs.C17Links.zgood_at.
+Notation zwall := V.Proofs.C17Links.zwall.
+Theorem C17_links_discharged :
+  ndt_links inst nvalid /\ dz_links zwall zgood /\
+  ndt_sub_links inst nvalid NS_MIN NS_MAX /\
+  (forall off, -86400 < off < 86400 ->
+     dz_sub_links zwall (zgood_at off) (NS_MIN + off * 1000000000) (NS_MAX + off * 1000000000)).
+Proof. exact (conj V.Proofs.C17Links.ndt_links_hold (conj V.Proofs.C17Links.dz_links_hold
+         (conj V.Proofs.C17Links.ndt_sub_links_hold V.Proofs.C17Links.dz_sub_links_hold))). Qed.
+Print Assumptions C17_links_discharged.
+(* what the carriers mean, unfolded *)
+Theorem C17_zoned_vocabulary : forall z,
+  (zgood z <-> nvalid (dz_utc z) /\ -86400 < dz_off z < 86400) /\
+  zwall z = inst (dz_utc z) + dz_off z * 1000000000 /\
+  (forall off, zgood_at off z <-> nvalid (dz_utc z) /\ dz_off z = off).
+Proof. exact (fun z => conj (conj (fun H => H) (fun H => H)) (conj eq_refl (fun off => conj (fun H => H) (fun H => H)))). Qed.
+Print Assumptions C17_zoned_vocabulary.
+
+(** ** NaiveDateTime, unconditional *)
+(* on the domain (positive span expressible in i64 ns, instant in i64) a value is returned: the right
+   multiple, itself a multiple, less than one span from the input *)
+Theorem C17_naive_value : forall m a d, nvalid a -> valid d -> 0 < ns d <= i64_max -> in_i64 (inst a) = true ->
+  exists r, ndt_op m a d = Val (inl r) /\ nvalid r /\ inst r = spec_of m (inst a) (ns d) /\
+            (ns d | inst r) /\ Z.abs (inst r - inst a) < ns d.
+Proof. exact V.Proofs.C17Links.ndt_value_u. Qed.
+Print Assumptions C17_naive_value.
+(* failure is reported by value (never a trap), exactly in the documented cases, with the documented variant *)
+Theorem C17_naive_error_iff : forall m a d, nvalid a -> valid d ->
+  exists out, ndt_op m a d = Val out /\ forall e, out = inr e <->
+    (e = DurationExceedsLimit /\ (ns d <= 0 \/ i64_max < ns d)) \/
+    (e = TimestampExceedsLimit /\ 0 < ns d <= i64_max /\ in_i64 (inst a) = false).
+Proof. exact V.Proofs.C17Links.ndt_error_u. Qed.
+Print Assumptions C17_naive_error_iff.
+Theorem C17_naive_multiples_fixed : forall m a d, nvalid a -> valid d -> 0 < ns d <= i64_max ->
+  in_i64 (inst a) = true -> (ns d | inst a) -> ndt_op m a d = Val (inl a).
+Proof. exact V.Proofs.C17Links.ndt_fixed_u. Qed.
+Print Assumptions C17_naive_multiples_fixed.
+(* idempotence (also across operations); a first result just outside the i64 window gets the
+   documented error on the second application *)
+Theorem C17_naive_idempotent : forall m m' a d r, nvalid a -> valid d -> ndt_op m a d = Val (inl r) ->
+  ndt_op m' r d = Val (if in_i64 (inst r) then inl r else inr TimestampExceedsLimit).
+Proof. exact V.Proofs.C17Links.ndt_idem_u. Qed.
+Print Assumptions C17_naive_idempotent.
+
+(** ** DateTime<FixedOffset> / DateTime<Utc>, unconditional: the same on the wall-clock stamp, for
+    every offset and every instant, including those whose wall clock leaves NaiveDateTime's range
+    (there the stamp does not fit i64 and Err(TimestampExceedsLimit) is the result, by value) *)
+Theorem C17_zoned_value : forall m z d, zgood z -> valid d -> 0 < ns d <= i64_max -> in_i64 (zwall z) = true ->
+  exists r, dz_op m z d = Val (inl r) /\ zgood r /\ zwall r = spec_of m (zwall z) (ns d) /\
+            (ns d | zwall r) /\ Z.abs (zwall r - zwall z) < ns d.
+Proof. exact V.Proofs.C17Links.dz_value_u. Qed.
+Print Assumptions C17_zoned_value.
+Theorem C17_zoned_error_iff : forall m z d, zgood z -> valid d ->
+  exists out, dz_op m z d = Val out /\ forall e, out = inr e <->
+    (e = DurationExceedsLimit /\ (ns d <= 0 \/ i64_max < ns d)) \/
+    (e = TimestampExceedsLimit /\ 0 < ns d <= i64_max /\ in_i64 (zwall z) = false).
+Proof. exact V.Proofs.C17Links.dz_error_u. Qed.
+Print Assumptions C17_zoned_error_iff.
+Theorem C17_zoned_multiples_fixed : forall m z d, zgood z -> valid d -> 0 < ns d <= i64_max ->
+  in_i64 (zwall z) = true -> (ns d | zwall z) -> dz_op m z d = Val (inl z).
+Proof. exact V.Proofs.C17Links.dz_fixed_u. Qed.
+Print Assumptions C17_zoned_multiples_fixed.
+Theorem C17_zoned_idempotent : forall m m' z d r, zgood z -> valid d -> dz_op m z d = Val (inl r) ->
+  dz_op m' r d = Val (if in_i64 (zwall r) then inl r else inr TimestampExceedsLimit).
+Proof. exact V.Proofs.C17Links.dz_idem_u. Qed.
+Print Assumptions C17_zoned_idempotent.
+
+(** ** sub-second digits on NaiveDateTime and DateTime<FixedOffset>, unconditional: N-digit rounding /
+    truncation is rounding / truncation of the instant to the span 10^(9-min(9,N)) ns (carry into the
+    next second, minute, ... day included) whenever the target instant is representable; the result
+    is well-formed, keeps the offset, and a value already on a multiple is returned unchanged
+    ([subsec_post stamp good f x N r] = good r /\ stamp r = f (stamp x) (sub_span N) /\
+     (stamp x mod sub_span N = 0 -> r = x)) *)
+Theorem C17_naive_round_subsecs : forall a digits, nvalid a -> 0 <= digits ->
+  NS_MIN <= m_round (inst a) (V.Judge.C17.sub_span digits) <= NS_MAX ->
+  exists r, round_subsecs ndt_ops a digits = Val r /\ subsec_post inst nvalid m_round a digits r.
+Proof. exact V.Proofs.C17Links.ndt_round_subsecs_u. Qed.
+Print Assumptions C17_naive_round_subsecs.
+Theorem C17_naive_trunc_subsecs : forall a digits, nvalid a -> 0 <= digits ->
+  NS_MIN <= m_trunc (inst a) (V.Judge.C17.sub_span digits) <= NS_MAX ->
+  exists r, trunc_subsecs ndt_ops a digits = Val r /\ subsec_post inst nvalid m_trunc a digits r.
+Proof. exact V.Proofs.C17Links.ndt_trunc_subsecs_u. Qed.
+Print Assumptions C17_naive_trunc_subsecs.
+Theorem C17_zoned_round_subsecs : forall z digits, zgood z -> 0 <= digits ->
+  NS_MIN <= m_round (zwall z) (V.Judge.C17.sub_span digits) - dz_off z * 1000000000 <= NS_MAX ->
+  exists r, round_subsecs dz_ops z digits = Val r /\ subsec_post zwall (zgood_at (dz_off z)) m_round z digits r.
+Proof. exact V.Proofs.C17Links.dz_round_subsecs_u. Qed.
+Print Assumptions C17_zoned_round_subsecs.
+Theorem C17_zoned_trunc_subsecs : forall z digits, zgood z -> 0 <= digits ->
+  NS_MIN <= m_trunc (zwall z) (V.Judge.C17.sub_span digits) - dz_off z * 1000000000 <= NS_MAX ->
+  exists r, trunc_subsecs dz_ops z digits = Val r /\ subsec_post zwall (zgood_at (dz_off z)) m_trunc z digits r.
+Proof. exact V.Proofs.C17Links.dz_trunc_subsecs_u. Qed.
+Print Assumptions C17_zoned_trunc_subsecs.
+(* the carriers are inhabited at the range ends; the witness of the unrepaired trap (MAX_UTC read at
+   +00:00:01) is [zgood] with a wall-clock stamp outside i64: C17_zoned_error_iff applies to it *)
+Example C17_links_inhabited :
+  nvalid NDT_MAX /\ nvalid NDT_MIN /\ inst NDT_MAX = NS_MAX /\
+  zgood z_witness /\ in_i64 (zwall z_witness) = false /\ zwall z_witness = NS_MAX + 1000000000.
+Proof. exact V.Proofs.C17Links.links_inhabited. Qed.
+Print Assumptions C17_links_inhabited.
 
 (** ** the hypotheses are inhabited / the operations are not vacuous: the crate's own test values *)
 Example C17_examples :
